@@ -40,7 +40,7 @@ LEMMAS = {
     "lemma_glue_timeout_not_early": ("GLUE.timeout-not-early", ["C13"]),
 }
 GLUE_QUOTES = {"u2.kc": ["O-poll.final-only", "O-abw.final-only", "O-wait_timeout.success", "O-not-early", "O-is_terminated"],
-               "prelude_u1.rs": ["pub fn poll(&self)", "pub fn async_blocking_wait(&self)", "pub fn wait_timeout(&self", "pub fn is_terminated(&self"]}
+               "prelude_u1.rs": ["pub fn poll(&self)", "pub fn async_blocking_wait(&self", "pub fn wait_timeout(&self", "pub fn is_terminated(&self"]}
 
 
 def scan_lemmas(rs_text):
